@@ -476,6 +476,33 @@ static void run_imp(const Case& c) {
     } else if (model == "coll") {
         std::cout << "aux " << hx(static_cast<float>(Impedance::Z0 / 3.14159265358979323846 * std::log(static_cast<double>(e[1]) / static_cast<double>(e[2])))) << '\n';
         CollimatorImpedance z(n, e[0], e[1], e[2]); print_imp(z);
+    } else if (model == "sum") {
+        // imp <id> sum <n1> <n2> ; extra = fmax re1 im1 re2 im2 : tables of unequal length added (operator+=)
+        size_t n2 = std::stoul(c.head[4]);
+        ConstImpedance a(n, e[0], impedance_t(e[1], e[2]));
+        ConstImpedance b(n2, e[0], impedance_t(e[3], e[4]));
+        a += b;
+        print_imp(a);
+    } else if (model == "file") {
+        // imp <id> file 0 ; extra = fmax ; ops = whitespace-separated tokens of the impedance file ("~" = line break)
+        char name[] = "/tmp/ivh_impXXXXXX";
+        int fd = mkstemp(name);
+        std::string txt;
+        for (const auto& w : c.words) { if (w == "~") txt += "\n"; else { txt += w; txt += ' '; } }
+        if (fd < 0 || write(fd, txt.data(), txt.size()) != static_cast<ssize_t>(txt.size())) { std::cout << "error tmpfile\n"; return; }
+        close(fd);
+        try {
+            Impedance z(std::string(name), static_cast<double>(e[0]));
+            print_imp(z);
+        } catch (std::exception& ex) {
+            std::cout << "txt exception\n";
+        }
+        unlink(name);
+    } else if (model == "pow2") {
+        // imp <id> pow2 0 ; ops = decimal arguments of upper_power_of_two
+        std::cout << "ints";
+        for (const auto& w : c.words) std::cout << ' ' << upper_power_of_two(std::stoull(w));
+        std::cout << '\n';
     } else if (model == "factory") {
         // extra = fmax R_bend frev gap use_csr s xi coll_radius
         std::stringstream sink; auto* old = std::cout.rdbuf(sink.rdbuf());
